@@ -22,7 +22,7 @@
    PARTIAL: cycles through members of layered / referenced values (the walk passes through a
    ValueList or a reference) are covered by the cyclic streams of the check on every run, not
    by a theorem. *)
-From RV Require Import Model.Interp Proofs.WfFacts Proofs.StateFacts Proofs.StateIndep Proofs.Mono Proofs.NoPanic Proofs.Termination Proofs.CycleFacts Proofs.CycleGeneral.
+From RV Require Import Model.Interp Proofs.WfFacts Proofs.StateFacts Proofs.StateIndep Proofs.Mono Proofs.NoPanic Proofs.Termination Proofs.CycleFacts Proofs.CycleGeneral Proofs.StateDown.
 
 (** The depth error is raised exactly at nesting depth 64 (documented limit), whatever the
     reference refers to ... *)
@@ -59,6 +59,24 @@ Theorem C08_results_independent_of_state :
     interp f root v sa = Ok (ra, sa') -> interp f root v sb = Ok (rb, sb') -> ra = rb.
 Proof. exact interp_state_independent. Qed.
 Eval cbv in "ASSUMPTIONS-OF C08_results_independent_of_state"%string. Print Assumptions C08_results_independent_of_state.
+
+(** "... acyclic references never are [errors]", the state side: the state can turn a value
+    into an error only by growing.  Whatever renders at some state -- some depth, some paths
+    already on the chain, some position in the tree -- renders to the same value, with the same
+    fuel, at every state with no greater depth and no more recorded paths; in particular from
+    the top level.  So a value is never an error because of where it is used from, except for
+    the documented limit of 64 on the length of a chain. *)
+Theorem C08_what_renders_renders_from_every_shorter_chain :
+  forall root f v st r st1 st',
+    interp f root v st = Ok (r, st1) -> st_sub st' st ->
+    exists st1', interp f root v st' = Ok (r, st1') /\ st_sub st1' st1.
+Proof. exact interp_succeeds_at_smaller_states. Qed.
+Eval cbv in "ASSUMPTIONS-OF C08_what_renders_renders_from_every_shorter_chain"%string. Print Assumptions C08_what_renders_renders_from_every_shorter_chain.
+
+Theorem C08_what_renders_renders_at_the_top_level :
+  forall root f v st r st1, interp f root v st = Ok (r, st1) -> exists st1', interp f root v st0 = Ok (r, st1').
+Proof. exact interp_succeeds_at_top_level. Qed.
+Eval cbv in "ASSUMPTIONS-OF C08_what_renders_renders_at_the_top_level"%string. Print Assumptions C08_what_renders_renders_at_the_top_level.
 
 Theorem C08_fuel_irrelevant :
   forall root f f' v st r, f <= f' -> interp f root v st = r -> r <> OutOfFuel -> interp f' root v st = r.
